@@ -214,7 +214,7 @@ class VFSZip(VFS_Real):
             lastsymlinklen = len(symlinkinodes)
             newsymlinkinodes = []
             for item in symlinkinodes:
-                if item["dest"][0] == "/":
+                if item["dest"][:1] == "/":
                     dest = item["dest"][1:]
                 else:
                     dest = os.path.join(os.path.dirname(item["pathname"]), item["dest"])
